@@ -4,11 +4,12 @@
  "props": ["C14", "C03"],
  "level": "U/iter",
  "tier": "wip",
- "tier_after_hooks": "quick",
+ "tier_after_hooks": "thorough",
  "harness": "h_add_blocks",
  "loop_contracts": true,
  "includes": ["debugfs", "lib/ss", "e2fsck"],
- "defines": ["DEBUGFS", "JW_BS=1024", "JW_MAXLEN=8"],
+ "defines": ["DEBUGFS", "JW_BS=1024"],
+ "timeout": 900,
  "unwind": 6,
  "unwind_reason": "the per-block loop of journal_add_blocks_to_trans is cut by its in-place loop contract (named anchor VERIF_INV_JOURNAL_ADD_BLOCKS_TO_TRANS, hooks-pending/jw.diff); the bound serves the DFCC library loops only (unwinding assertions on)",
  "functions": ["debugfs/do_journal.c:journal_add_blocks_to_trans"],
@@ -35,12 +36,33 @@
  "harness": "h_add_blocks",
  "loop_contracts": true,
  "includes": ["debugfs", "lib/ss", "e2fsck"],
- "defines": ["DEBUGFS", "JW_CHECK_UUID"],
+ "defines": ["DEBUGFS", "JW_BS=1024", "JW_CHECK_UUID"],
+ "timeout": 900,
  "unwind": 6,
  "unwind_reason": "as jw_add_blocks_to_trans",
  "functions": ["debugfs/do_journal.c:journal_add_blocks_to_trans"],
  "assumes": [
    "as jw_add_blocks_to_trans, plus the format clause that the first tag of every descriptor block is followed by the journal's 16 UUID bytes: EXPECTED TO FAIL on the tree (finding C03_jw_first_tag_uuid: memcpy(jdbt + tag_bytes, ..) scales by sizeof(journal_block_tag_t))"
+  ],
+ "native": false
+}
+*/
+/* VERIF-UNIT
+{
+ "name": "jw_add_blocks_to_trans_strict",
+ "props": ["C03"],
+ "level": "U/iter",
+ "tier": "wip",
+ "harness": "h_add_blocks",
+ "loop_contracts": true,
+ "includes": ["debugfs", "lib/ss", "e2fsck"],
+ "defines": ["DEBUGFS", "JW_BS=1024", "JW_BH_SLACK=0"],
+ "timeout": 900,
+ "unwind": 6,
+ "unwind_reason": "as jw_add_blocks_to_trans",
+ "functions": ["debugfs/do_journal.c:journal_add_blocks_to_trans"],
+ "assumes": [
+   "as jw_add_blocks_to_trans, but the buffer heads have NO slack behind the block (exactly what getblk allocates): the out-of-bounds pointer FORMATION (char *)jdbt + tag_bytes in the descriptor-full test is reported (expected failing obligation, strict ISO C only: nothing is accessed there; see the FINDING comment)"
   ],
  "native": false
 }
@@ -74,6 +96,13 @@
  * Epilogue: on success every logged block is described by a descriptor block that was written, trans->block is the
  * first free log block, both buffers were released exactly once; an error reported by the device or by bmap is
  * returned.
+ *
+ * FINDING (benign, strict-C only; same class as recovery.c:count_tags, proofs/journal/tags.c): when the tags fill the
+ * usable area of a descriptor block exactly (e.g. 1 KiB blocks, 64BIT without checksums: 12 + 12 + 16 + 82 * 12 = 1024),
+ * jdbt stands at the one-past-the-end address of the getblk() allocation and the next iteration evaluates
+ * (char *)jdbt + tag_bytes - a pointer up to 16 bytes further.  Nothing is read or written there, but forming it is
+ * undefined in ISO C and CBMC's pointer check reports it.  Unit jw_add_blocks_to_trans_strict (wip, no slack) shows
+ * that ONE obligation; the other units give the buffers 32 never-accessed slack bytes.
  */
 #include "jw_env.h"
 
